@@ -439,12 +439,19 @@ def check_C04(tier, nproc=None):
         for k in extra_clz:
             c.add(Job('vH_EL', [('int', e10), ('int', k), ('bool', False)], pkg=FP, weight=900, opts=o0))
         c.add(Job('vH_EL', [('int', e10), ('int', 0), ('bool', True)], pkg=FP, weight=900, opts=o0))
+    # tier 2: the exact floating-point path, every exponent it accepts (and a margin), every 64-bit mantissa
+    ox = {'fx_model': True, 'bits_intrinsics': True, 'nsamples': 1}
+    for e10 in range(-26, 42):
+        for neg in (False, True):
+            c.add(Job('vH_FP_exact', [('int', e10), ('bool', neg)], pkg=FP, weight=500, opts=ox))
     c.bounds = {'scanner_all_strings': N, 'scanner_templates': [_tmplstr(t) for t in T],
+                'exact_path': 'atof64exact for every decimal exponent -26..41, both signs, every 64-bit mantissa',
                 'eisel_lemire': 'every one of the 696 table rows x every 64-bit mantissa with 0 leading zeros; leading-zero counts %s on %s rows; negative sign on the same rows' % (extra_clz, 'every 58th' if tier == 'quick' else 'all')}
-    c.must_reach = ['C04.scan-returned', 'C04.scan-ok', 'C04.el-returned', 'C04.el-ok']
+    c.must_reach = ['C04.scan-returned', 'C04.scan-ok', 'C04.el-returned', 'C04.el-ok', 'C04.exact-returned', 'C04.exact-ok']
     _std(c, ['R-ROUND (engine/gosym/fpspec.py): nearest binary64 with ties to even, as linear integer inequalities per exponent field; validated natively with math/big in replays',
-             'math/bits.Mul64 and LeadingZeros64 are exact term-level intrinsics'])
-    c.outside = ['tier 2 (atof64exact float arithmetic) and tier 4 (order of the tiers, truncation re-check) are not encoded in this check',
+             'math/bits.Mul64 and LeadingZeros64 are exact term-level intrinsics',
+             'tier 2: each IEEE-754 operation on exactly known operands returns rnd(exact result) (the standard\'s definition); comparisons with constants are translated to the un-rounded value by rounding midpoints; an intermediate is taken as exact only when the solver proves it is an integer <= 2^53 on the path, otherwise the double rounding is decided with R-ROUND'])
+    c.outside = ['tier 4 (order of the tiers in ParseJSONFloatPrefix, the truncated-mantissa re-check) is not encoded in this check',
                  'the multi-precision decimal fallback (decimal.set, floatBits, shifts): literals with more than 19 significant digits whose bounds disagree, exact halfway cases, exponents beyond +-347, subnormal and overflowing magnitudes are NOT established end to end',
                  'literals longer than the scanner bounds']
     c.run_jobs(nproc)
